@@ -2008,11 +2008,11 @@ def run(ctx):
     entry = ctx.prog.fn(ENTRY)
     reach = world.reachable(entry)
     ctx.extra["reachable_from_run"] = len(reach)
-    rule_R1(ctx, world, tracer, reach)
-    rule_R1f(ctx, world)
-    rule_R2(ctx, world, tracer)
-    facts = rule_R3(ctx, world, tracer, reach)
-    rule_R4(ctx, world, tracer, reach, facts)
+    ctx.soft(rule_R1, world, tracer, reach)
+    ctx.soft(rule_R1f, world)
+    ctx.soft(rule_R2, world, tracer)
+    facts = ctx.soft(rule_R3, world, tracer, reach)
+    ctx.soft(rule_R4, world, tracer, reach, facts)
 
 
 # Self-test catalogue: one small textual edit each, applied to a scratch copy (see selftest.py).
